@@ -147,6 +147,7 @@ func (pkg *Package) schemaFromDesc(context fieldContext, schema *schema_j5pb.Fie
 				fieldContext: context,
 				Ref:          item.AsRef(),
 				Rules:        st.Oneof.Rules,
+				ListRules:    st.Oneof.ListRules,
 				Ext:          st.Oneof.Ext,
 			}, nil
 		case *schema_j5pb.OneofField_Ref:
@@ -155,6 +156,7 @@ func (pkg *Package) schemaFromDesc(context fieldContext, schema *schema_j5pb.Fie
 				fieldContext: context,
 				Ref:          ref,
 				Rules:        st.Oneof.Rules,
+				ListRules:    st.Oneof.ListRules,
 				Ext:          st.Oneof.Ext,
 			}, nil
 		default:
